@@ -152,9 +152,16 @@ def run(ctx):
                                                                    with_observed=with_obs, index_equal=okidx, all_finite=fin,
                                                                    rows_in=len(rdx.df), rows_out=len(o)))
                         except Exception as e:  # noqa
-                            res["oracle_failures"].append(dict(clause="hourly_predict_raises", zone=zone, transition_utc=str(t), shift_seconds=shift,
-                                                               with_observed=with_obs, first_local_date=str(d0), days=days,
-                                                               error=f"{type(e).__name__}: {str(e)[:100]}"))
+                            f_ = dict(clause="hourly_predict_raises", zone=zone, transition_utc=str(t), shift_seconds=shift,
+                                      with_observed=with_obs, first_local_date=str(d0), days=days,
+                                      error=f"{type(e).__name__}: {str(e)[:100]}")
+                            if abs(shift) not in (0, 3600) and any(e_["id"] == "C06-F1" and e_.get("status") == "finding" for e_ in ctx.get("findings", [])):
+                                # C06-F1: clock changes that are not one hour (30 minutes: Caracas 2007, Lord Howe; 2 hours: Troll)
+                                dd_ = res["finding_instances"].setdefault("C06-F1", dict(count=0, example=None))
+                                dd_["count"] += 1
+                                dd_["example"] = dd_["example"] or f_
+                            else:
+                                res["oracle_failures"].append(f_)
         res["hist"]["zones"] = res["hist"].get("zones", 0) + 1
 
     # ---- daily / billing through the public API: gaps, NaN days, random zones
